@@ -122,8 +122,17 @@ func ordEvalSnapshot(r *core.Run, u []ordVariant, c *ordCase) {
 		sigs = append(sigs, &u[k].Sig)
 	}
 	s := gen.MkSnapshot(sigs)
-	a := s.Aggregate(stack.AnyValue)
+	var a *stack.Aggregated
+	var panicked any
+	func() {
+		defer func() { panicked = recover() }()
+		a = s.Aggregate(stack.AnyValue)
+	}()
 	r.Eval(1)
+	if panicked != nil {
+		r.Violation("aggregate-panic", fmt.Sprintf("Aggregate panicked while ordering buckets: %v", panicked), "ordsnap", c)
+		return
+	}
 	report := func(key, what string) {
 		var d []string
 		for _, k := range c.Idx {
@@ -165,7 +174,14 @@ func runC13(r *core.Run) {
 	for i := range less {
 		less[i] = make([]bool, n)
 		for j := range less[i] {
-			less[i][j] = stack.VerifSignatureLess(&u[i].Sig, &u[j].Sig)
+			func() {
+				defer func() {
+					if p := recover(); p != nil {
+						r.Violation("comparator-panic", fmt.Sprintf("the comparator panicked (%v) on %q vs %q", p, u[i].Desc, u[j].Desc), "law", &ordCase{Full: full, Idx: []int{i, j}, Law: "panic"})
+					}
+				}()
+				less[i][j] = stack.VerifSignatureLess(&u[i].Sig, &u[j].Sig)
+			}()
 		}
 	}
 	r.Eval(n * n)
@@ -201,6 +217,7 @@ func runC13(r *core.Run) {
 		r.DistinctN(n * n)
 	})
 	r.Count("triples_checked", n*n*n)
+	r.Eval(n * n * n) // every triple is one evaluation of the four laws on the cached comparator results
 	r.Exhaustive(true)
 	// black box
 	m := r.N(20000, 600000)
